@@ -65,7 +65,8 @@ def generate(seed, tier):
     two = g.chance(0.5)
     parts = ["A", "B"] if two else ["A"]
     nsteps = g.randint(3, 40 if tier == "quick" else 70)
-    ngraphs = g.randint(1, 3)
+    simple = g.chance(0.2)  # base store without contexts: one graph, Graph / store handles only
+    ngraphs = 1 if simple else g.randint(1, 3)
     graphs = GRAPHS[:ngraphs]
     init = []
     for part in parts + (["B"] if not two and g.chance(0.3) else []):
@@ -150,7 +151,13 @@ def generate(seed, tier):
     if g.chance(0.7):
         uid += 1
         ops.append({"uid": uid, "w": sched.pick(parts), "k": "rollback", "via": "store", "g": 0})
-    return {"property": ID, "config": {"two": two, "graphs": graphs, "init": init}, "ops": ops}
+    if simple:
+        for op in ops:
+            if op.get("via") == "cg":
+                op["via"] = "graph"
+            if op.get("g") is None and op["k"] == "remove":
+                op["g"] = 0
+    return {"property": ID, "config": {"two": two, "graphs": graphs, "init": init, "base": "simple" if simple else "memory"}, "ops": ops}
 
 
 def _tt(spec):
@@ -178,7 +185,13 @@ def execute(trace, ctx):
         # with a single wrapper its partition is the whole store
         return _in_part0(q, part) if cfg["two"] else part == "A"
 
-    base = Memory()
+    simple = cfg.get("base") == "simple"
+    if simple:
+        from rdflib.plugins.stores.memory import SimpleMemory
+
+        base = SimpleMemory()
+    else:
+        base = Memory()
     model = set()  # (skey s, skey p, skey o, skey g)
     for s, p, o, gi in cfg["init"]:
         Graph(base, T(graphs[gi])).add((T(s), T(p), T(o)))
@@ -194,6 +207,8 @@ def execute(trace, ctx):
         for gs in graphs:
             for t in Graph(base, T(gs)):
                 got.add(tkey(t) + (skey(gs),))
+        if simple:
+            return got, got
         got2 = set()
         for s, p, o, c in ConjunctiveGraph(base).quads((None, None, None)):
             got2.add(tkey((s, p, o)) + (tkey((c.identifier,))[0],))
